@@ -70,18 +70,12 @@ static const cfg_t cfgs[] = {
       B_EXITTO, C_JOIN, NOH, O_JT, 0, -1, 0 },
     { "P task_join TASK@0 not started (seq)", 0, J_PRIM, 0, T_TASK, 0, B_RET,
       C_TJOIN, NOH, O_TJ, 0, -1, 0 },
-    { "X free ULT@1 ret", 0, J_EXT, 0, T_ULT, 1, B_RET, C_FREE, NOH, O_TJ, 0,
-      -1, 0 },
-    { "X join ULT@1 self_exit", 0, J_EXT, 0, T_ULT, 1, B_EXIT, C_JOIN, NOH,
-      O_TJ, 0, -1, 0 },
     { "X join ULT@1 exit_to", 0, J_EXT, 0, T_ULT, 1, B_EXITTO, C_JOIN, NOH,
       O_TJ, 0, -1, 0 },
     { "X join ULT@0 yield-ret", 0, J_EXT, 0, T_ULT, 0, B_YRET, C_JOIN, NOH,
       O_TJ, 0, -1, 0 },
-    { "X join x2 ULT@1 ret", 0, J_EXT, 0, T_ULT, 1, B_RET, C_JOIN2, NOH, O_TJ,
-      0, -1, 0 },
-    { "X join_many ULT@1+ULT@0", 0, J_EXT, 0, T_ULT, 1, B_RET, C_JOIN_MANY,
-      NOH, O_TJ, 0, 0, 0 },
+    { "T@0 join_many ULT@1+ULT@1", 0, J_TASK, 0, T_ULT, 1, B_RET, C_JOIN_MANY,
+      NOH, O_TJ, 0, 1, 0 },
     { "U@0 free_many ULT@1+ULT@1", 0, J_OTHER, 0, T_ULT, 1, B_YRET,
       C_FREE_MANY, NOH, O_TJ, 0, 1, 0 },
     { "X task_join TASK@1", 0, J_EXT, 0, T_TASK, 1, B_RET, C_TJOIN, NOH, O_TJ,
@@ -92,7 +86,7 @@ static const cfg_t cfgs[] = {
       C_FREE, H_PRIM, O_TJ, 0, -1, 0 },
     { "X free ULT@1 blocked, P sets", 0, J_EXT, 0, T_ULT, 1, B_BLOCK, C_FREE,
       H_PRIM, O_TJ, 0, -1, 0 },
-    { "X free ULT@1 after TERMINATED seen", 0, J_EXT, 0, T_ULT, 1, B_EXIT,
+    { "T@0 free ULT@1 after TERMINATED seen", 0, J_TASK, 0, T_ULT, 1, B_EXIT,
       C_FREE, NOH, O_TJ, 0, -1, 1 },
     { "P join ULT@1 ret", 0, J_PRIM, 0, T_ULT, 1, B_RET, C_JOIN, NOH, O_TJ, 0,
       -1, 0 },
@@ -106,10 +100,6 @@ static const cfg_t cfgs[] = {
       H_EXT, O_TJ, 0, -1, 0 },
     { "P join_many ULT@1+ULT@1", 0, J_PRIM, 0, T_ULT, 1, B_RET, C_JOIN_MANY,
       NOH, O_TJ, 0, 1, 0 },
-    { "X task_free TASK@1", 0, J_EXT, 0, T_TASK, 1, B_RET, C_TFREE, NOH, O_TJ,
-      0, -1, 0 },
-    { "X join ULT@1 after TERMINATED seen", 0, J_EXT, 0, T_ULT, 1, B_RET,
-      C_JOIN, NOH, O_TJ, 0, -1, 1 },
     { "X free ULT@1 malloc-stack cancelled by P", 0, J_EXT, 0, T_ULT, 1,
       B_CANCEL, C_FREE, H_PRIM, O_TJ, 1, -1, 0 },
     { "P free ULT@1 malloc-stack yield-ret", 0, J_PRIM, 0, T_ULT, 1, B_YRET,
@@ -120,8 +110,8 @@ static const cfg_t cfgs[] = {
       0, -1, 0 },
     { "U@1 free ULT@0 self_exit malloc-stack", 0, J_OTHER, 1, T_ULT, 0, B_EXIT,
       C_FREE, NOH, O_TJ, 1, -1, 0 },
-    { "U@0 join ULT@1 cancelled by X", 0, J_OTHER, 0, T_ULT, 1, B_CANCEL,
-      C_JOIN, H_EXT, O_TJ, 0, -1, 0 },
+    { "U@0 join ULT@1 cancelled by P", 0, J_OTHER, 0, T_ULT, 1, B_CANCEL,
+      C_JOIN, H_PRIM, O_TJ, 0, -1, 0 },
     { "U@0 join ULT@1 blocked, U@0 sets", 0, J_OTHER, 0, T_ULT, 1, B_BLOCK,
       C_JOIN, H_ULT0, O_TJ, 0, -1, 0 },
     { "U@0 join TASK@1", 0, J_OTHER, 0, T_TASK, 1, B_RET, C_JOIN, NOH, O_TJ, 0,
